@@ -15,6 +15,7 @@ mod eyeballs;
 mod timeout;
 mod wire;
 mod streams;
+mod pool;
 
 use std::io::{BufRead, Write};
 
@@ -36,6 +37,7 @@ fn gen(stream: &str, seed: u64, n: u64) -> Vec<String> {
                 "to" => timeout::gen(&mut r, i),
                 "wire" => wire::gen(&mut r, i),
                 "st" => streams::gen(&mut r, i),
+                "pool" => pool::gen(&mut r, i),
                 _ => panic!("unknown stream {stream}"),
             };
             format!("{stream} {body}")
@@ -60,6 +62,7 @@ fn run_line(line: &str) -> String {
         "to" => timeout::run(&toks),
         "wire" => wire::run(&toks),
         "st" => streams::run(&toks),
+        "pool" => pool::run(&toks),
         _ => "unknown-stream".to_string(),
     };
     format!("{input} | {obs}")
